@@ -6,8 +6,10 @@ from .report import AnalysisBroken
 
 FIELD = 'futex.i'
 U64 = (1 << 64) - 1
-SEC_REPS = frozenset(x & U64 for x in (-(1 << 62), -2, -1, 0, 1, 1 << 62))
-NSEC_REPS = frozenset((0, 1, 999999999))
+# representatives of the deadline: both ends of the time_t range and their neighbours (arithmetic on the seconds must not wrap there),
+# the sign boundary, and for the nanoseconds both ends of [0, 1e9) plus values around every unit a rounding step could use
+SEC_REPS = frozenset(x & U64 for x in (-(1 << 63), -(1 << 63) + 1, -(1 << 62), -2, -1, 0, 1, 1 << 62, (1 << 63) - 2, (1 << 63) - 1))
+NSEC_REPS = frozenset((0, 1, 999, 1000, 999999, 1000000, 500000000, 999000000, 999999000, 999999001, 999999998, 999999999))
 
 class FutexEngine(SmallWordEngine):
     def __init__(self, mod, K):
